@@ -187,6 +187,7 @@ type driver struct {
 	ackArmed           bool
 	leaderLostNoHS     bool   // leader restarted from an older log and no handshake has completed since
 	leaderLostMode     string // back | backcg
+	lostFrom, lostTo   int64  // positions the leader lost since its last completed handshake
 	lastHS             *hsRec // last completed handshake
 	rewrites           map[int64]string
 	desyncCause        string
@@ -429,10 +430,12 @@ func (d *driver) doAppend(n int) {
 			// the leader is about to store a new message at a position the follower already has
 			cause := "unexplained"
 			switch {
-			case d.leaderLostNoHS:
+			case d.leaderLostNoHS && pos >= d.lostFrom && pos <= d.lostTo:
+				// the one situation the index-only handshake cannot see: the leader lost positions [lostFrom, lostTo]
+				// that the follower has, and stores new messages there before its first handshake after the loss
 				cause = "appended-before-handshake-after-leader-lost-tail"
 				if d.leaderLostMode == "backcg" {
-					cause += "/leader-kept-newer-consumer-group-meta"
+					d.count("leader_append_over_lost_tail_before_handshake.consumer_group_meta_kept_newer", 1)
 				}
 			case atomic.LoadInt32(&w.overtakes) > 0:
 				cause = "after-append-overtaken-by-reconnect"
@@ -559,6 +562,17 @@ func (d *driver) doLeaderRestart(e event) {
 		d.count("fault.leader_restart.lost_tail."+e.Mode, 1)
 		d.count("fault.leader_restart.lost_tail.by_"+bucket(int64(e.J)), 1)
 		if e.J > 0 {
+			// positions (restored appended, appended before the restart] are gone; several losses before one handshake add up
+			from, to := pick.appended+1, before.A
+			if d.leaderLostNoHS {
+				if d.lostFrom < from {
+					from = d.lostFrom
+				}
+				if d.lostTo > to {
+					to = d.lostTo
+				}
+			}
+			d.lostFrom, d.lostTo = from, to
 			d.leaderLostNoHS, d.leaderLostMode = true, e.Mode
 		}
 	} else {
